@@ -21,20 +21,41 @@ type dgen struct {
 
 func (g *dgen) fresh(p string) string { g.uid++; return fmt.Sprintf("%s%d", p, g.uid) }
 
+// source contexts as a loaded model carries them: file, start and end position
+func (g *dgen) srcs() []*sysl.SourceContext {
+	var out []*sysl.SourceContext
+	for i := g.r.Intn(4) - 1; i > 0; i-- {
+		l := int32(1 + g.r.Intn(200))
+		out = append(out, &sysl.SourceContext{File: []string{"a.sysl", "dir/b.sysl"}[g.r.Intn(2)],
+			Start: &sysl.SourceContext_Location{Line: l, Col: int32(g.r.Intn(40))},
+			End:   &sysl.SourceContext_Location{Line: l + int32(g.r.Intn(3)), Col: int32(g.r.Intn(80))}})
+	}
+	return out
+}
+
 func (g *dgen) attrVal(depth int) *sysl.Attribute {
-	switch g.r.Intn(5) {
+	switch g.r.Intn(8) {
 	case 0:
-		return &sysl.Attribute{Attribute: &sysl.Attribute_I{I: int64(g.r.Intn(50))}}
+		return &sysl.Attribute{Attribute: &sysl.Attribute_I{I: int64(g.r.Intn(50)) - 10}}
 	case 1:
-		return &sysl.Attribute{Attribute: &sysl.Attribute_N{N: float64(g.r.Intn(50)) / 4}}
-	case 2:
+		return &sysl.Attribute{Attribute: &sysl.Attribute_N{N: []float64{0.25, -2.5, 1e-3, 3, 1e21, 0}[g.r.Intn(6)] * float64(1+g.r.Intn(7))}}
+	case 2, 3:
 		if depth < 2 {
 			a := &sysl.Attribute_Array{}
-			for i := g.r.Intn(3); i > 0; i-- {
+			for i := g.r.Intn(4); i > 0; i-- {
 				a.Elt = append(a.Elt, g.attrVal(depth+1))
 			}
 			return &sysl.Attribute{Attribute: &sysl.Attribute_A{A: a}}
 		}
+	case 4:
+		// float64(int64) rounds beyond 2^53
+		v := int64(1)<<53 + int64(g.r.Intn(9)) - 4
+		if g.r.Bool() {
+			v = -v * int64(1+g.r.Intn(500))
+		}
+		return &sysl.Attribute{Attribute: &sysl.Attribute_I{I: v}}
+	case 5:
+		return &sysl.Attribute{Attribute: &sysl.Attribute_S{S: ""}}
 	}
 	return &sysl.Attribute{Attribute: &sysl.Attribute_S{S: g.fresh("v")}}
 }
@@ -52,7 +73,9 @@ func (g *dgen) attrs() map[string]*sysl.Attribute {
 		m["patterns"] = &sysl.Attribute{Attribute: &sysl.Attribute_A{A: a}}
 	}
 	for i := g.r.Intn(3); i > 0; i-- {
-		m[g.fresh("anno")] = g.attrVal(0)
+		v := g.attrVal(0)
+		v.SourceContexts = g.srcs()
+		m[g.fresh("anno")] = v
 	}
 	return m
 }
@@ -60,7 +83,7 @@ func (g *dgen) attrs() map[string]*sysl.Attribute {
 var dprims = []sysl.Type_Primitive{sysl.Type_INT, sysl.Type_STRING, sysl.Type_BOOL, sysl.Type_DECIMAL, sysl.Type_ANY, sysl.Type_DATE, sysl.Type_EMPTY}
 
 func (g *dgen) typ(depth int) *sysl.Type {
-	t := &sysl.Type{Opt: g.r.Chance(1, 4), Attrs: g.attrs()}
+	t := &sysl.Type{Opt: g.r.Chance(1, 4), Attrs: g.attrs(), SourceContexts: g.srcs()}
 	k := g.r.Intn(12)
 	if depth > 2 && k >= 5 && k <= 7 {
 		k = 0
@@ -116,7 +139,7 @@ func (g *dgen) stmts(depth, maxDepth, minSib int) []*sysl.Statement {
 var dpayloads = []string{"", "ok", "error", "500", "ok <: string", "ok <: T0", "200 <: sequence of Ns::A1.T0", "ok <: T0 [~m, k=\"v\"]", "200 ok", "500 < Err"}
 
 func (g *dgen) stmt(depth, maxDepth, minSib int) *sysl.Statement {
-	s := &sysl.Statement{Attrs: g.attrs()}
+	s := &sysl.Statement{Attrs: g.attrs(), SourceContexts: g.srcs()}
 	k := g.r.Intn(16)
 	if depth >= maxDepth && k >= 6 {
 		k = g.r.Intn(6)
@@ -133,6 +156,9 @@ func (g *dgen) stmt(depth, maxDepth, minSib int) *sysl.Statement {
 		p := dpayloads[g.r.Intn(len(dpayloads))]
 		if (!g.allowBad || g.r.Chance(3, 4)) && (p == "200 ok" || p == "500 < Err") {
 			p = "ok"
+		}
+		if g.r.Bool() {
+			p, _ = genPayloadText(g.r)
 		}
 		s.Stmt = &sysl.Statement_Ret{Ret: &sysl.Return{Payload: p}}
 	case 5:
@@ -188,17 +214,17 @@ func genDirect(seed uint64) *sysl.Module {
 	napps := 1 + g.r.Intn(3)
 	for ai := 0; ai < napps; ai++ {
 		parts := [][]string{{"A0"}, {"Ns", "A1"}, {"Ns", "Sub", "A2"}}[ai]
-		app := &sysl.Application{Name: &sysl.AppName{Part: parts}, Attrs: g.attrs(), Endpoints: map[string]*sysl.Endpoint{},
+		app := &sysl.Application{Name: &sysl.AppName{Part: parts}, Attrs: g.attrs(), SourceContexts: g.srcs(), Endpoints: map[string]*sysl.Endpoint{},
 			Types: map[string]*sysl.Type{}, Views: map[string]*sysl.View{}}
 		if g.r.Bool() {
 			app.LongName = g.fresh("long")
 		}
 		for i := g.r.Intn(3); i > 0; i-- {
-			app.Mixin2 = append(app.Mixin2, &sysl.Application{Name: &sysl.AppName{Part: []string{g.fresh("Mx")}}, Attrs: g.attrs()})
+			app.Mixin2 = append(app.Mixin2, &sysl.Application{Name: &sysl.AppName{Part: []string{g.fresh("Mx")}}, Attrs: g.attrs(), SourceContexts: g.srcs()})
 		}
 		neps := 1 + g.r.Intn(3)
 		for ei := 0; ei < neps; ei++ {
-			ep := &sysl.Endpoint{Name: g.fresh("E"), Attrs: g.attrs(), Param: g.params()}
+			ep := &sysl.Endpoint{Name: g.fresh("E"), Attrs: g.attrs(), Param: g.params(), SourceContexts: g.srcs()}
 			maxDepth, minSib := 1+g.r.Intn(4), 0
 			if ai == 0 && ei == 0 {
 				maxDepth, minSib = 5+g.r.Intn(4), 2 // Appendix B: depth >= 5 with >= 2 siblings on every level
@@ -237,7 +263,7 @@ func genDirect(seed uint64) *sysl.Module {
 			app.Endpoints[ep.Name] = ep
 		}
 		for i := g.r.Intn(4); i > 0; i-- {
-			t := &sysl.Type{Opt: g.r.Chance(1, 5), Attrs: g.attrs()}
+			t := &sysl.Type{Opt: g.r.Chance(1, 5), Attrs: g.attrs(), SourceContexts: g.srcs()}
 			switch g.r.Intn(7) {
 			case 0, 1:
 				t.Type = &sysl.Type_Tuple_{Tuple: &sysl.Type_Tuple{AttrDefs: g.fields()}}
@@ -269,7 +295,7 @@ func genDirect(seed uint64) *sysl.Module {
 			app.Types[g.fresh("T")] = t
 		}
 		for i := g.r.Intn(2); i > 0; i-- {
-			app.Views[g.fresh("View")] = &sysl.View{RetType: g.typ(1), Attrs: g.attrs()}
+			app.Views[g.fresh("View")] = &sysl.View{RetType: g.typ(1), Attrs: g.attrs(), SourceContexts: g.srcs()}
 		}
 		key := parts[0]
 		for _, p := range parts[1:] {
